@@ -388,3 +388,338 @@ Qed.
 
 Theorem cinv_reach s : creach s -> CInv s.
 Proof. apply invariant_reachable; [apply cinv_init|apply cinv_step]. Qed.
+
+(* ================================================================== *)
+(* Core theorems                                                       *)
+
+(* a listener's notifications = the global forward order between its add and its close *)
+Theorem core_exactly_once s l x :
+  creach s -> lst s l = Some x -> l_reg x = true ->
+  l_got x ++ l_q x ++ pending s l = seg x (fwd s).
+Proof. intros R Hl Hr. destruct (cinv_reach _ R) as (_ & _ & _ & A4 & _). apply (A4 _ _ Hl). exact Hr. Qed.
+
+(* a listener whose registration gave up (subscriber closing) gets nothing *)
+Theorem core_unregistered_empty s l x :
+  creach s -> lst s l = Some x -> l_reg x = false -> l_got x = [] /\ l_q x = [].
+Proof. intros R Hl Hr. destruct (cinv_reach _ R) as (_ & _ & _ & A4 & _). apply (A4 _ _ Hl). exact Hr. Qed.
+
+(* the close is observed only after everything queued has been read, and nothing is queued after the close *)
+Theorem core_closed_after_queued s l x :
+  creach s -> lst s l = Some x -> l_out_closed x = true ->
+  l_in_closed x = true /\ l_q x = [] /\ pending s l = [] /\
+  (l_reg x = true -> exists n, l_end x = Some n /\ l_got x = skipn (l_start x) (firstn n (fwd s))).
+Proof.
+  intros R Hl Ho. destruct (cinv_reach _ R) as (_ & A2 & _ & A4 & _ & A6 & _).
+  pose proof (A4 _ _ Hl) as (L1 & L2 & L3 & L4 & L5 & L6).
+  destruct (L6 Ho) as [Hic Hq].
+  assert (Hp : pending s l = []).
+  { unfold pending. destruct (d_pc s) as [|e rest| | | |] eqn:Hpc; try reflexivity.
+    destruct (memn l rest) eqn:Hm; [|reflexivity]. exfalso.
+    apply memn_In in Hm. unfold dinv in A6. rewrite Hpc in A6. destruct A6 as ((pre & Hpre) & _).
+    unfold active in A2. rewrite Hpc in A2.
+    destruct (A2 l) as (x' & Hx' & _ & Hc' & _). { rewrite Hpre. apply in_or_app. right. exact Hm. }
+    congruence. }
+  repeat split; auto.
+  intro Hr. destruct (l_end x) as [n|] eqn:E; [|exfalso; apply (L5 Hic); reflexivity].
+  exists n. split; [reflexivity|]. specialize (L2 Hr). rewrite Hq, Hp, !app_nil_r in L2.
+  rewrite L2. unfold seg. rewrite E. reflexivity.
+Qed.
+
+(* a listener that is registered and whose input is open has been given every event
+   forwarded since it was added: nothing is skipped *)
+Theorem core_open_listener_complete s l x :
+  creach s -> lst s l = Some x -> l_reg x = true -> l_in_closed x = false ->
+  l_got x ++ l_q x ++ pending s l = skipn (l_start x) (fwd s).
+Proof.
+  intros R Hl Hr Hc. destruct (cinv_reach _ R) as (_ & _ & _ & A4 & _).
+  pose proof (A4 _ _ Hl) as (L1 & L2 & L3 & L4 & L5 & L6).
+  rewrite (L2 Hr). unfold seg. destruct (l_end x) as [n|] eqn:E.
+  - destruct (L4 _ eq_refl) as (_ & ? & _). congruence.
+  - rewrite firstn_all. reflexivity.
+Qed.
+
+(* the distributor never panics: no send on, and no second close of, a listener channel *)
+Theorem core_distributor_never_panics s : creach s -> p_dist s = false.
+Proof. intro R. apply (cinv_reach _ R). Qed.
+
+(* ---- forwarding never waits for a reader ---- *)
+
+Lemma dist_enabled s :
+  CInv s -> dist_rank s <> 0 -> exists s', cstep s LDist = Some s' /\ dist_rank s' = pred (dist_rank s).
+Proof.
+  intros (ND & A2 & A3 & A4 & A5 & A6 & A7) Hr. unfold dist_rank in *. cbn [cstep].
+  destruct (d_pc s) as [|e rest| | |rest|] eqn:Hpc; try congruence.
+  - destruct rest as [|l rest]; [eexists; split; [reflexivity|]; csimp; reflexivity|].
+    unfold dinv in A6. rewrite Hpc in A6. destruct A6 as ((pre & Hpre) & _).
+    unfold active in A2. rewrite Hpc in A2.
+    destruct (A2 l) as (x & Hx & _). { rewrite Hpre. apply in_or_app. right. left. reflexivity. }
+    rewrite Hx. eexists; split; [reflexivity|]. csimp. reflexivity.
+  - eexists; split; [reflexivity|]. csimp. reflexivity.
+  - eexists; split; [reflexivity|]. csimp. reflexivity.
+  - destruct rest as [|l rest]; [eexists; split; [reflexivity|]; csimp; reflexivity|].
+    unfold active in A2. rewrite Hpc in A2.
+    destruct (A2 l (or_introl eq_refl)) as (x & Hx & _).
+    rewrite Hx. eexists; split; [reflexivity|]. csimp. reflexivity.
+Qed.
+
+(* whatever the readers do (no LRead is needed), the distributor's own steps bring it
+   back to its select / to its end: dist_rank steps *)
+Theorem core_forward_never_blocks s :
+  creach s -> exists s', run_dist (dist_rank s) s = Some s' /\ dist_rank s' = 0 /\ creach s'.
+Proof.
+  intro R. remember (dist_rank s) as n eqn:Hn. revert s R Hn.
+  induction n as [|n IH]; intros s R Hn.
+  - exists s. cbn. auto.
+  - destruct (dist_enabled s (cinv_reach _ R)) as (s1 & H1 & Hr1); [congruence|].
+    assert (R1 : creach s1). { eapply reachable_step; eassumption. }
+    destruct (IH s1 R1) as (s' & Hrun & H0 & R'). { rewrite Hr1, <- Hn. reflexivity. }
+    exists s'. cbn [run_dist]. rewrite H1. auto.
+Qed.
+
+(* ... and then it takes the next event: inEvents is emptied without any reader step *)
+Theorem core_inevents_drained s e :
+  creach s -> d_pc s = DSelect -> in_ev s = Some e ->
+  exists s', cstep s LDist = Some s' /\ in_ev s' = None /\ fwd s' = fwd s ++ [e].
+Proof. intros R Hpc Hi. cbn [cstep]. rewrite Hpc, Hi. eexists; split; [reflexivity|]. csimp. auto. Qed.
+
+(* a sender is blocked only while the slot is full *)
+Theorem core_send_enabled s e :
+  in_closed s = false -> in_ev s = None -> exists s', cstep s (LSend e) = Some s'.
+Proof. intros Hc Hi. cbn [cstep]. rewrite Hc, Hi. eexists; reflexivity. Qed.
+
+(* the distributor is back in its select (so a cancel / registration rendez-vous is
+   possible) or gone; it is gone only after s.closing... is the sync layer's concern *)
+Theorem core_done_closed_all s :
+  creach s -> d_pc s = DDone ->
+  forall l x, lst s l = Some x -> l_reg x = true -> l_in_closed x = true.
+Proof.
+  intros R Hpc l x Hl Hr. destruct (cinv_reach _ R) as (_ & A2 & A3 & A4 & _ & A6 & _).
+  destruct (l_in_closed x) eqn:Hc; [reflexivity|exfalso].
+  pose proof (A4 _ _ Hl) as (L1 & L2 & L3 & L4 & L5 & L6).
+  assert (E : l_end x = None).
+  { destruct (l_end x) eqn:E; [|reflexivity]. destruct (L4 _ eq_refl) as (_ & ? & _). congruence. }
+  pose proof (A3 _ _ Hl Hr E) as Hin. unfold active in Hin. rewrite Hpc in Hin.
+  unfold dinv in A6. rewrite Hpc in A6. destruct A6 as (Hdl & _). rewrite Hdl in Hin. destruct Hin.
+Qed.
+
+(* ================================================================== *)
+(* Sync layer                                                          *)
+
+Lemma updt_same f t th : updt f t th t = Some th.
+Proof. unfold updt. rewrite Nat.eqb_refl. reflexivity. Qed.
+Lemma updt_other f t th x : x <> t -> updt f t th x = f x.
+Proof. intro H. unfold updt. destruct (Nat.eqb_spec x t); [contradiction|reflexivity]. Qed.
+Lemma updt_cases f t th x th0 :
+  updt f t th x = Some th0 -> (x = t /\ th0 = th) \/ (x <> t /\ f x = Some th0).
+Proof.
+  unfold updt. destruct (Nat.eqb_spec x t); intro H; [left; split; congruence|right; split; assumption].
+Qed.
+
+Ltac inv_some :=
+  repeat match goal with
+  | H : Some _ = Some _ |- _ => inversion H; subst; clear H
+  | H : None = Some _ |- _ => discriminate H
+  | H : goto _ _ _ _ = Some _ |- _ => unfold goto in H
+  end.
+
+(* destruct the step function completely; fx stays symbolic *)
+Ltac step_inv H :=
+  match type of H with
+  | stepf ?fx ?s ?l = Some ?s' =>
+    destruct l as [k|t choice| |lb]; cbn [stepf] in H;
+    [ destruct (k_async k && watch_done s) eqn:Hsp; [discriminate H|]; inv_some
+    | destruct (threads s t) as [th|] eqn:Hth; [|discriminate H];
+      unfold step_thread in H; destruct (t_pc th) eqn:Hpc;
+      repeat match type of H with
+      | context [match async_mu s ?p with _ => _ end] => destruct (async_mu s p) eqn:Hamu
+      | context [match sync_mu s ?p with _ => _ end] => destruct (sync_mu s p) eqn:Hsmu
+      | context [match choice with _ => _ end] => destruct choice as [|[|choice]]
+      | context [match cstep ?c ?lb with _ => _ end] => destruct (cstep c lb) eqn:Hcs
+      | context [if k_async ?k then _ else _] => destruct (k_async k) eqn:Hka
+      end; try discriminate H; inv_some
+    | unfold closer_step in H; destruct (stage s) as [|[|[|[|[|[|n]]]]]] eqn:Hst;
+      repeat match type of H with
+      | context [match cstep ?c ?lb with _ => _ end] => destruct (cstep c lb) eqn:Hcs
+      | context [if none_active ?s ?f then _ else _] => destruct (none_active s f) eqn:Hna
+      end; try discriminate H; inv_some
+    | destruct (core_label_ok lb) eqn:Hok; [|discriminate H];
+      destruct (cstep (co s) lb) eqn:Hcs; [|discriminate H]; inv_some ]
+  end.
+
+Ltac ssimp :=
+  cbn [co latest sync_mu async_mu exp_closed watch_done stage threads next_tid sent_log done_log latest_log
+       w_threads w_sync_mu w_async_mu w_co w_done w_latest w_sent w_stage
+       t_kind t_pc t_out t_ev set_pc set_out set_ev new_thread
+       e_sid e_async e_pub e_cid e_cnt e_err mk_event] in *.
+
+(* the core of a reachable state is a reachable core state *)
+Lemma co_step fx s l s' : stepf fx s l = Some s' -> co s' = co s \/ exists lb, cstep (co s) lb = Some (co s').
+Proof.
+  intro H. step_inv H; ssimp; try (left; reflexivity); try (right; eexists; eassumption).
+  all: destruct fx; ssimp; left; reflexivity.
+Qed.
+
+Lemma reach_core fx s : reach fx s -> creach (co s).
+Proof.
+  apply (invariant_reachable (stepf fx) (fun s => creach (co s))).
+  - exists []. reflexivity.
+  - intros s0 l s' R H. destruct (co_step _ _ _ _ H) as [->|(lb & Hc)]; [exact R|].
+    eapply reachable_step; eassumption.
+Qed.
+
+(* the labels the environment may use on the core do not touch inEvents' closedness,
+   s.closing, nor the order of what went through inEvents *)
+Lemma cstep_ok_frame c lb c' :
+  core_label_ok lb = true -> cstep c lb = Some c' ->
+  in_closed c' = in_closed c /\ closing c' = closing c /\ p_env c' = p_env c /\
+  fwd c' ++ opt_list (in_ev c') = fwd c ++ opt_list (in_ev c).
+Proof.
+  intros Hok H. destruct lb as [e| | | |l|l|l|l|]; try discriminate Hok; cbn [cstep] in H.
+  - inv_some. csimp. auto.
+  - destruct (d_pc c); try discriminate. destruct (lst c l); [|discriminate].
+    destruct (l_reg l0 || l_in_closed l0); [discriminate|]. inv_some. csimp. auto.
+  - destruct (lst c l); [|discriminate].
+    destruct (l_reg l0 || l_in_closed l0 || negb (closing c)); [discriminate|]. inv_some. csimp. auto.
+  - destruct (d_pc c); try discriminate. destruct (memn l (d_list c)).
+    + destruct (lst c l); [|discriminate]. destruct (l_in_closed l0); inv_some; csimp; auto.
+    + inv_some. csimp. auto.
+  - destruct (lst c l); [|discriminate]. destruct (l_q l0).
+    + destruct (l_in_closed l0 && negb (l_out_closed l0)); [|discriminate]. inv_some. csimp. auto.
+    + inv_some. csimp. auto.
+  - destruct (d_pc c) as [|e rest| | |rest|].
+    + destruct (in_ev c) eqn:Hi.
+      * inv_some. csimp. cbn. rewrite app_nil_r. auto.
+      * destruct (in_closed c) eqn:Hic; [|discriminate]. inv_some. csimp. rewrite Hi. auto.
+    + destruct rest as [|l rest]; [inv_some; csimp; auto|].
+      destruct (lst c l); [|discriminate]. destruct (l_in_closed l0); inv_some; csimp; auto.
+    + inv_some. csimp. auto.
+    + inv_some. csimp. auto.
+    + destruct rest as [|l rest]; [inv_some; csimp; auto|].
+      destruct (lst c l); [|discriminate]. destruct (l_in_closed l0); inv_some; csimp; auto.
+    + discriminate.
+Qed.
+
+Lemma none_active_spec s f :
+  none_active s f = true -> forall t th, threads s t = Some th -> t < next_tid s -> f th = false.
+Proof.
+  unfold none_active. intros H t th Ht Hlt. rewrite forallb_forall in H.
+  specialize (H t). rewrite Ht in H. apply negb_true_iff. apply H. apply in_seq. lia.
+Qed.
+
+(* ---- group B: doClose closes inEvents only when no sender is left ---- *)
+
+Local Arguments Nat.leb : simpl never.
+
+Definition tinvB (s : st) (th : thread) : bool :=
+  implb (3 <=? stage s) (negb (exp_active th)) && implb (5 <=? stage s) (negb (async_active th)).
+
+Definition InvB (s : st) : Prop :=
+  (2 <= stage s -> exp_closed s = true) /\
+  (4 <= stage s -> watch_done s = true) /\
+  (in_closed (co s) = true -> stage s = 6) /\
+  (closing (co s) = true -> 1 <= stage s) /\
+  p_env (co s) = false /\
+  (forall t th, threads s t = Some th -> t < next_tid s) /\
+  (forall t th, threads s t = Some th -> tinvB s th = true).
+
+Lemma invB_init : InvB init.
+Proof. unfold InvB, init; cbn. repeat split; try lia; try discriminate. Qed.
+
+Ltac split7b := split; [|split; [|split; [|split; [|split; [|split]]]]].
+
+Lemma leb_S3 n : (3 <=? S n) = (2 <=? n).
+Proof. reflexivity. Qed.
+
+(* the stepping thread does not become active again; the others are untouched *)
+Ltac thB B7 Hth Hpc fx :=
+  let t0 := fresh "t0" in let th0 := fresh "th0" in let Ht0 := fresh "Ht0" in let Hne := fresh "Hne" in
+  let Bt := fresh "Bt" in
+  intros t0 th0 Ht0; apply updt_cases in Ht0; destruct Ht0 as [[-> ->]|[Hne Ht0]]; [|exact (B7 _ _ Ht0)];
+  pose proof (B7 _ _ Hth) as Bt; unfold tinvB, exp_active, async_active, after_handle in *; ssimp;
+  rewrite Hpc in Bt;
+  repeat match goal with
+  | |- context [match t_out ?th with _ => _ end] => destruct (t_out th) as [[[|] ?]|]
+  | |- context [if k_upd ?k then _ else _] => destruct (k_upd k)
+  end;
+  destruct (k_async (t_kind _)); destruct (3 <=? stage _); destruct (5 <=? stage _);
+  try destruct fx; cbn in *; try reflexivity; try discriminate.
+
+Lemma invB_step fx s l s' : InvB s -> stepf fx s l = Some s' -> InvB s'.
+Proof.
+  intros (B1 & B2 & B3 & B4 & B5 & B6 & B7) H.
+  step_inv H.
+  - (* Spawn *)
+    split7b; ssimp; auto.
+    + intros t th Ht. apply updt_cases in Ht. destruct Ht as [[-> ->]|[Hne Ht]]; [lia|]. specialize (B6 _ _ Ht). lia.
+    + intros t th Ht. apply updt_cases in Ht. destruct Ht as [[-> ->]|[Hne Ht]]; [|apply B7 in Ht; exact Ht].
+      unfold tinvB, exp_active, async_active; ssimp. destruct k as [p c u|p c]; cbn [k_async] in *.
+      * destruct (exp_closed s) eqn:He; cbn; [destruct (3 <=? stage s), (5 <=? stage s); reflexivity|].
+        destruct (3 <=? stage s) eqn:E3; [|destruct (5 <=? stage s); reflexivity].
+        apply Nat.leb_le in E3. exfalso. assert (false = true) by (apply B1; lia). discriminate.
+      * cbn in Hsp. destruct (5 <=? stage s) eqn:E5; [|destruct (3 <=? stage s); reflexivity].
+        apply Nat.leb_le in E5. rewrite B2 in Hsp by lia. discriminate.
+  (* thread steps that leave the core alone *)
+  all: try (split7b; ssimp; auto;
+    [ intros t0 th0 Ht0; apply updt_cases in Ht0; destruct Ht0 as [[-> ->]|[Hne Ht0]]; [exact (B6 _ _ Hth)|exact (B6 _ _ Ht0)]
+    | thB B7 Hth Hpc fx ]; fail).
+  - (* PSend *)
+    pose proof (B7 _ _ Hth) as Bt.
+    cbn [cstep] in Hcs. destruct (in_closed (co s)) eqn:Hic.
+    { exfalso. specialize (B3 eq_refl). unfold tinvB, exp_active, async_active in Bt. rewrite Hpc, B3 in Bt.
+      destruct (k_async (t_kind th)); discriminate Bt. }
+    destruct (in_ev (co s)); [discriminate|]. inv_some.
+    split7b; ssimp; csimp; auto.
+    + intros t0 th0 Ht0; apply updt_cases in Ht0; destruct Ht0 as [[-> ->]|[Hne Ht0]]; [exact (B6 _ _ Hth)|exact (B6 _ _ Ht0)].
+    + thB B7 Hth Hpc fx.
+  - (* PSendErr *)
+    pose proof (B7 _ _ Hth) as Bt.
+    cbn [cstep] in Hcs. destruct (in_closed (co s)) eqn:Hic.
+    { exfalso. specialize (B3 eq_refl). unfold tinvB, exp_active, async_active in Bt. rewrite Hpc, B3 in Bt.
+      destruct (k_async (t_kind th)); discriminate Bt. }
+    destruct (in_ev (co s)); [discriminate|]. inv_some.
+    split7b; ssimp; csimp; auto.
+    + intros t0 th0 Ht0; apply updt_cases in Ht0; destruct Ht0 as [[-> ->]|[Hne Ht0]]; [exact (B6 _ _ Hth)|exact (B6 _ _ Ht0)].
+    + thB B7 Hth Hpc fx.
+  - (* closer 0: close(closing) *)
+    cbn [cstep] in Hcs. destruct (closing (co s)) eqn:Hcl.
+    { specialize (B4 eq_refl). lia. }
+    inv_some. split7b; ssimp; csimp; auto; try lia.
+    + intro Hc. specialize (B3 Hc). lia.
+    + intros t0 th0 Ht0. specialize (B7 _ _ Ht0). unfold tinvB in *; ssimp. rewrite Hst in B7. exact B7.
+  - (* closer 1 *)
+    split7b; ssimp; auto; try lia.
+    + intro Hc. specialize (B3 Hc). lia.
+    + intros t0 th0 Ht0. specialize (B7 _ _ Ht0). unfold tinvB in *; ssimp. rewrite Hst in B7. exact B7.
+  - (* closer 2: expSyncWG.Wait *)
+    split7b; ssimp; auto; try lia.
+    + intros _. apply B1. lia.
+    + intro Hc. specialize (B3 Hc). lia.
+    + intros t0 th0 Ht0. unfold tinvB; ssimp.
+      rewrite (none_active_spec _ _ Hna _ _ Ht0 (B6 _ _ Ht0)). reflexivity.
+  - (* closer 3 *)
+    split7b; ssimp; auto; try lia.
+    + intros _. apply B1. lia.
+    + intro Hc. specialize (B3 Hc). lia.
+    + intros t0 th0 Ht0. specialize (B7 _ _ Ht0). unfold tinvB in *; ssimp. rewrite Hst in B7. exact B7.
+  - (* closer 4: asyncWG.Wait *)
+    split7b; ssimp; auto; try lia.
+    + intros _. apply B1. lia.
+    + intros _. apply B2. lia.
+    + intro Hc. specialize (B3 Hc). lia.
+    + intros t0 th0 Ht0. specialize (B7 _ _ Ht0). unfold tinvB in *; ssimp. rewrite Hst in B7.
+      rewrite (none_active_spec _ _ Hna _ _ Ht0 (B6 _ _ Ht0)).
+      apply andb_prop in B7. destruct B7 as [B7 _]. rewrite B7. reflexivity.
+  - (* closer 5: close(inEvents) *)
+    cbn [cstep] in Hcs. destruct (in_closed (co s)) eqn:Hic.
+    { specialize (B3 eq_refl). lia. }
+    inv_some. split7b; ssimp; csimp; auto; try lia.
+    + intros _. apply B1. lia.
+    + intros _. apply B2. lia.
+    + intros t0 th0 Ht0. specialize (B7 _ _ Ht0). unfold tinvB in *; ssimp. rewrite Hst in B7. exact B7.
+  - (* core labels *)
+    destruct (cstep_ok_frame _ _ _ Hok Hcs) as (F1 & F2 & F3 & _).
+    split7b; ssimp; auto; rewrite ?F1, ?F2, ?F3; auto.
+Qed.
+
+Theorem invB_reach fx s : reach fx s -> InvB s.
+Proof. apply invariant_reachable; [apply invB_init|apply invB_step]. Qed.
